@@ -465,7 +465,7 @@ fn c01_jobs(tier: Tier) -> Vec<HybJob> {
         }
     }
     // Directed programs (both tiers): histories the quick alphabet does not spell (a second key after
-    // clear(); a get_or_fetch caller that polls late) under all four base schedules, bound 1.
+    // clear(); a get_or_fetch caller that polls late) under all four base schedules, bound 2.
     let ins = |k: u64, sz: usize| HOp::Ins { k, sz, loc: Loc::Default };
     let directed: Vec<Vec<HOp>> = vec![
         vec![ins(1, 100), HOp::Clear, ins(2, 100)],
@@ -479,7 +479,7 @@ fn c01_jobs(tier: Tier) -> Vec<HybJob> {
             for policy in [Eager, LazyIo, ClientFirst, Alternate] {
                 let mut o = opts.clone();
                 o.final_restart = true;
-                jobs.push(HybJob { cfg: cfg.clone(), prog: prog.clone(), policy, opts: o, bound: 1 });
+                jobs.push(HybJob { cfg: cfg.clone(), prog: prog.clone(), policy, opts: o, bound: 2 });
             }
         }
     }
